@@ -1,4 +1,4 @@
-module specterlint
+module golang.org/x/tools/specterlint
 
 go 1.26.8
 
